@@ -242,8 +242,13 @@ def text_in_bang_class(text):
 def run_text_stream(h, rng, quick, res, cli=None, tag="text", part="all", tree_meta=()):
     """part="all": every source (C01);  part="layout": the layout-variant groups only (C10).  Returns the evidence dict
     (also stored as res.streams["TEXT-EVAL"])."""
+    import time
+    t0 = time.time()
     try:
-        return _run_text_stream(h, rng, quick, res, cli, tag, part, tree_meta)
+        ev = _run_text_stream(h, rng, quick, res, cli, tag, part, tree_meta)
+        ev["wall_s"] = round(time.time() - t0, 1)
+        c.log("TEXT-EVAL correspondence (%s) %.1fs" % (part, time.time() - t0))
+        return ev
     except c.BrokenTie as e:
         res.tie_broken(e.what, e.detail)
         res.streams["TEXT-EVAL"] = {"part": part, "completed": False}
@@ -263,6 +268,15 @@ def _run_text_stream(h, rng, quick, res, cli, tag, part, tree_meta):
         groups += [[("all-stream", s)] for s in g.programs(600 if quick else 6000)]
         groups += stmt_layout_cases(rng, 300 if quick else 3000)
         groups += layout_cases(rng, tree_meta, 120 if quick else 1200, 1)
+        # operator x value-pool grid of the EVAL stream (c01_gen), as text; `^` stays with the ALL programs (powf tables)
+        import c01_gen as g01
+        core = g01.pool(g01.POOL_CORE)
+        ops = [o for o in g01.BINOPS + g01.NATOPS if o != "^"]
+        nums = core[:10]                # the numeric values of the pool: exhaustive under the five arithmetic operators
+        for op in ["+", "-", "*", "/", "%"]:
+            groups += [[("operator-grid", "%s %s %s" % (a[1], op, b[1]))] for a in nums for b in nums]
+        for _ in range(250 if quick else 2500):
+            groups.append([("operator-grid", "%s %s %s" % (rng.choice(core)[1], rng.choice(ops), rng.choice(core)[1]))])
         import c10_peg
         groups += [[("hand", t)] for t in c10_peg.HAND]
         groups += [[("corpus", t)] for t in _corpus_texts()]
@@ -396,7 +410,8 @@ def _run_text_stream(h, rng, quick, res, cli, tag, part, tree_meta):
                        "base=%r\nvariant=%r\nimpl base   : %s\nimpl variant: %s\nmodel base   : %s\nmodel variant: %s" % first_lay)
     # ---- the real binary on a subset: exit class + the outputs object it writes
     if cli is not None:
-        cand = [t for t, a, m in zip(texts, impl, model) if m is not None and a == m and "time_now" not in t]
+        cand = [t for t, m in zip(texts, model) if m is not None and m != "FUEL" and "UNMODELLED" not in m
+                and es.MISS_NUM not in m and es.MISS_STR not in m and "time_now" not in t]
         with_out = [t for t in cand if not line_of_model[t].endswith(";OUT:")]
         rest = [t for t in cand if line_of_model[t].endswith(";OUT:")]
         n_cli = 60 if quick else 400
